@@ -132,6 +132,12 @@ static void exec_maybe_in_thread(const Scenario *s, const Plan &p, RunResult &r)
 #endif
 }
 
+// driver-level settings that belong to the plan (so that `gen` and `run` produce the same self-contained plan)
+static void finalize_plan(Plan &p, const Op &opts, uint64_t sd) {
+    if (!p.cfg.has("perturb")) p.cfg.seti("perturb", opts.has("perturb") ? opts.geti("perturb") : 1 + (int64_t) (sd % 255));
+    if (opts.geti("threadrun")) p.cfg.seti("threadrun", 1);
+}
+
 int main(int argc, char **argv) {
     setvbuf(stdout, nullptr, _IOLBF, 1 << 16);
     install_signal_handlers();
@@ -173,7 +179,7 @@ int main(int argc, char **argv) {
     }
     const Scenario *s = find_scenario(scen);
     if (!s) { fprintf(stderr, "unknown scenario '%s'\n", scen.c_str()); return 2; }
-    if (mode == "gen") { Plan p = s->gen(seed, opts); fputs(p.str().c_str(), stdout); return 0; }
+    if (mode == "gen") { Plan p = s->gen(seed, opts); finalize_plan(p, opts, seed); fputs(p.str().c_str(), stdout); return 0; }
     if (mode != "run") { fprintf(stderr, "usage: dsim run|gen|replay|list ...\n"); return 2; }
     int viol = 0;
     for (uint64_t i = first; i < first + count; i++) {
@@ -181,8 +187,7 @@ int main(int argc, char **argv) {
         printf("BEGIN %llu\n", (unsigned long long) sd); fflush(stdout);
         opts.setu("run_index", i);
         Plan p = s->gen(sd, opts);
-        if (!p.cfg.has("perturb")) p.cfg.seti("perturb", opts.has("perturb") ? opts.geti("perturb") : 1 + (int64_t) (sd % 255));
-        if (opts.geti("threadrun")) p.cfg.seti("threadrun", 1);
+        finalize_plan(p, opts, sd);
         RunResult r;
         apply_perturb(p);
         exec_maybe_in_thread(s, p, r);
